@@ -34,6 +34,10 @@ class FsControl:
         self.fail_at = {}  # global call index -> errno
         self.fail_op_at = {}  # (op, k-th call of op) -> errno
         self.fail_all_ops = {}  # op -> errno (repeated fault)
+        self.fail_label_at = {}  # (label, k-th call of that session) -> errno
+        self.per_label = {}
+        self.on_fault = []  # callables(label, op, n)
+        self.only_label = None  # restrict fail_all_ops to one session
         self.enabled = True  # fault plan switch
         self.faults_fired = []
         self.short_reads = False
@@ -50,6 +54,7 @@ class FsControl:
         n = self.n
         k = self.per_op[op] = self.per_op.get(op, 0) + 1
         label = self.label_of(inst) if self.label_of else None
+        kl = self.per_label[label] = self.per_label.get(label, 0) + 1
         if self.delay is not None and (self.delay_ops is None or op in self.delay_ops):
             lo, hi = self.delay
             d = lo if hi <= lo else self.rng.uniform(lo, hi)
@@ -65,6 +70,8 @@ class FsControl:
             if err is None:
                 err = self.fail_op_at.get((op, k))
             if err is None:
+                err = self.fail_label_at.get((label, kl))
+            if err is None and (self.only_label is None or self.only_label == label):
                 err = self.fail_all_ops.get(op)
         rec = [n, label, op, str(path) if path is not None else None, "ok"]
         if self.keep_calls:
@@ -72,6 +79,12 @@ class FsControl:
         if err is not None:
             rec[4] = f"fault:{err}"
             self.faults_fired.append((n, label, op, str(path), err))
+            for cb in self.on_fault:
+                cb(label, op, n)
+            if err == "runtime":
+                raise RuntimeError(f"simulated backend bug in {op}")
+            if err == "value":
+                raise ValueError(f"simulated backend bug in {op}")
             raise OSError(err, f"simulated {errno.errorcode.get(err, err)} in {op}")
         return rec
 
